@@ -5,7 +5,11 @@
 (*        ranks in the field's order (<<>>: no value; several: overlapping)      *)
 (* TRACE_FILE: array of [idx, qs: array of [q, obs]]; kinds:                     *)
 (*   sorted   keys = [[f, rev]..], grev, k, docs     search(sortedby=..., reverse=grev, limit=k) *)
+(*            a key is a field (FieldFacet / StoredFieldFacet), "_score", ["_range", rev, buckets] *)
+(*            (RangeFacet on num; buckets = [[lo, hi)..]) or ["_query", rev, qs] (QueryFacet whose  *)
+(*            queries the driver keeps disjoint; the key is the query's place in name order)      *)
 (*   groups   f, overlap, groups = [[key, [docnum..]]..]   Results.groups()  (key 0 = None)      *)
+(*            f = "_range" with buckets / "_query" with qs: keys are bucket / query numbers       *)
 (*   collapse f, n, k, sort, docs                     search(collapse=f, collapse_limit=n, limit=k[, sortedby]) *)
 (*   filtered filt, mask (queries or null), k, hits   search(filter=, mask=, limit=k)            *)
 (*   filteredlen  ..., n                              len() of those results                     *)
@@ -21,6 +25,17 @@ Vals(idx, d, f) == IF f \in DOMAIN Doc(idx, d).k THEN Doc(idx, d).k[f] ELSE <<>>
 HasVal(idx, d, f) == Vals(idx, d, f) # <<>>
 Key1(idx, d, f) == Vals(idx, d, f)[1]          \* sort key of a single-valued field
 
+\* ---- facet keys: rank (>= 1) of a document's key under a sort key, 0 when it has none ------------
+BucketOf(idx, d, bs) ==
+  LET v == Doc(idx, d).n.num
+      hit == {i \in DOMAIN bs : v # <<>> /\ bs[i][1] <= v[1] /\ v[1] < bs[i][2]}      \* start inclusive, end exclusive
+  IN IF hit = {} THEN 0 ELSE CHOOSE i \in hit : \A j \in hit : i <= j
+QueryKeys(idx, d, qs) == {i \in DOMAIN qs : d \in DOMAIN Denote(idx, qs[i])}
+KeyRank(idx, key, d) ==
+  CASE key[1] = "_range" -> BucketOf(idx, d, key[3])
+    [] key[1] = "_query" -> LET ks == QueryKeys(idx, d, key[3]) IN IF ks = {} THEN 0 ELSE CHOOSE i \in ks : \A j \in ks : i <= j
+    [] OTHER -> IF HasVal(idx, d, key[1]) THEN Key1(idx, d, key[1]) ELSE 0
+
 \* lexicographic comparison over the requested keys, each ascending or reversed; document order on ties.
 \* "_score" sorts by score, best first.
 \* Documents without a value for a key all carry the same (absent) value: they tie with one another, and
@@ -31,7 +46,8 @@ KeyLess(idx, m, keys, miss, i, a, b) ==
   IF i > Len(keys) THEN a < b
   ELSE LET f == keys[i][1]
            rev == keys[i][2]
-           kv(d) == IF f = "_score" THEN 0 - m[d] ELSE IF HasVal(idx, d, f) THEN 2 * Key1(idx, d, f) ELSE miss[i]
+           kv(d) == IF f = "_score" THEN 0 - m[d]
+                    ELSE LET r == KeyRank(idx, keys[i], d) IN IF r > 0 THEN 2 * r ELSE miss[i]
            ka == kv(a)
            kb == kv(b)
        IN IF ka = kb THEN KeyLess(idx, m, keys, miss, i + 1, a, b)
@@ -41,9 +57,9 @@ SortSpec(idx, m, S, keys) == SetToSortSeq(S, LAMBDA a, b : KeyLess(idx, m, keys,
 SortSpecM(idx, m, S, keys, miss) == SetToSortSeq(S, LAMBDA a, b : KeyLess(idx, m, keys, miss, 1, a, b))
 MaxRank == 8
 MissChoices(idx, S, keys) ==
-  [i \in DOMAIN keys |-> IF keys[i][1] = "_score" \/ \A d \in S : HasVal(idx, d, keys[i][1]) THEN {1}
+  [i \in DOMAIN keys |-> IF keys[i][1] = "_score" \/ \A d \in S : KeyRank(idx, keys[i], d) > 0 THEN {1}
                          ELSE {2 * j + 1 : j \in 0 .. MaxRank}]
-HasAll(idx, d, keys) == \A i \in DOMAIN keys : keys[i][1] = "_score" \/ HasVal(idx, d, keys[i][1])
+HasAll(idx, d, keys) == \A i \in DOMAIN keys : keys[i][1] = "_score" \/ KeyRank(idx, keys[i], d) > 0
 Rev(s) == [i \in DOMAIN s |-> s[Len(s) + 1 - i]]
 Prefix(s, k) == IF k = 0 \/ k >= Len(s) THEN s ELSE SubSeq(s, 1, k)
 
@@ -65,12 +81,21 @@ GroupKeys(idx, d, f, overlap) == IF ~HasVal(idx, d, f) THEN {0}
 GroupsSpec(idx, S, f, overlap) ==
   LET ks == UNION {GroupKeys(idx, d, f, overlap) : d \in S}
   IN [key \in ks |-> {d \in S : key \in GroupKeys(idx, d, f, overlap)}]
+\* the keys a document may be grouped under: a range facet's bucket, the queries of a query facet it matches
+\* (all of them when overlapping, otherwise one of them - the property does not say which), a field's value(s)
+AllowedKeys(idx, d, o) ==
+  CASE o.f = "_range" -> {BucketOf(idx, d, o.buckets)}
+    [] o.f = "_query" -> LET ks == QueryKeys(idx, d, o.qs) IN IF ks = {} THEN {0} ELSE ks
+    [] OTHER -> GroupKeys(idx, d, o.f, o.overlap)
 GroupsOK(idx, m, o) ==
-  LET spec == GroupsSpec(idx, DOMAIN m, o.f, o.overlap)
+  LET S == DOMAIN m
       got == [i \in DOMAIN o.groups |-> o.groups[i][1]]
-  IN /\ ToSet(got) = DOMAIN spec /\ Cardinality(ToSet(got)) = Len(got)
-     /\ \A i \in DOMAIN o.groups : /\ ToSet(o.groups[i][2]) = spec[o.groups[i][1]]
+      under(d) == {o.groups[i][1] : i \in {j \in DOMAIN o.groups : d \in ToSet(o.groups[j][2])}}
+  IN /\ Cardinality(ToSet(got)) = Len(got)
+     /\ \A i \in DOMAIN o.groups : /\ ToSet(o.groups[i][2]) \subseteq S /\ o.groups[i][2] # <<>>
                                    /\ Cardinality(ToSet(o.groups[i][2])) = Len(o.groups[i][2])
+     /\ \A d \in S : IF o.overlap \/ o.f # "_query" THEN under(d) = AllowedKeys(idx, d, o)
+                     ELSE Cardinality(under(d)) = 1 /\ under(d) \subseteq AllowedKeys(idx, d, o)
 
 \* collapse: walk the ranking, keep at most n documents per key; documents without a key are never collapsed
 \* shared == TRUE is NOT the property: it describes the recorded finding "documents without a value
@@ -127,7 +152,9 @@ Expected(idx, m, q, o) ==
                                    spec == SortSpec(idx, m, full, o.keys)
                                IN IF o.grev THEN Rev(spec) ELSE spec,
                              matched |-> Cardinality(DOMAIN m)]
-    [] o.kind = "groups" -> [groups |-> GroupsSpec(idx, DOMAIN m, o.f, o.overlap)]
+    [] o.kind = "groups" -> IF o.f \in {"_range", "_query"}
+                            THEN [allowed_keys |-> [d \in DOMAIN m |-> AllowedKeys(idx, d, o)]]
+                            ELSE [groups |-> GroupsSpec(idx, DOMAIN m, o.f, o.overlap)]
     [] o.kind = "collapse" -> LET rk == CollapseRank(idx, m, o) IN
                               [docs |-> Prefix(CollapseSeq(idx, rk, o.f, o.n, Len(rk), FALSE), o.k),
                                docs_if_valueless_documents_share_a_key |->
